@@ -445,6 +445,32 @@ func rwLayer(c *Ctx, rule string) {
 		if cw, isCW := first.(CallW); isCW && closeFn != nil && cw.Fn == closeFn.Obj {
 			ok = true
 		}
+		// … or through a helper of the writer that does that and nothing else (flushLiteral: `if !rw.inLiteral { return nil }; closeLiteral`)
+		if cw, isCW := first.(CallW); isCW && closeFn != nil && !ok {
+			if hg := g.funcs[cw.Fn]; hg != nil {
+				var reaches func(ns []Node) bool
+				reaches = func(ns []Node) bool {
+					for _, x := range ns {
+						switch t := x.(type) {
+						case CallW:
+							if t.Fn == closeFn.Obj {
+								return true
+							}
+						case Alt:
+							for _, br := range t.Branches {
+								if reaches(br) {
+									return true
+								}
+							}
+						case Emit:
+							return false // writes text of its own before the closer
+						}
+					}
+					return false
+				}
+				ok = reaches(hg.Tree)
+			}
+		}
 		c.check(ok, rule, key, c.pos(gf.Decl.Pos()), "Go text is only written after a pending string literal was closed",
 			gf.Name+": writes Go text without first closing a pending literal (`if rw.inLiteral { closeLiteral }`): literal text would be emitted after the Go statement that follows it in the template")
 		// the text parameter is written last
@@ -468,6 +494,73 @@ func rwLayer(c *Ctx, rule string) {
 		body := closeFn.Decl.Body
 		var incs, appends, resets, flagFalse int
 		var appended string
+		// (the bookkeeping may sit in a helper of the writer that the closer calls — takeLiteral: its statements count too;
+		// and the index may be the length of the literal list after the append instead of a counter of its own)
+		bodies := []*ast.BlockStmt{body}
+		pkgen := c.pkg("generator")
+		ast.Inspect(body, func(n ast.Node) bool {
+			if call, ok := n.(*ast.CallExpr); ok {
+				if hfn := calleeOf(pkgen.TypesInfo, call); hfn != nil && hfn.Pkg() == pkgen.Types {
+					if hg := g.funcs[hfn]; hg != nil && !hg.Emits && hg.Decl != nil && hg.Decl.Recv != nil && hg.Decl.Body != nil && hg.Decl != closeFn.Decl && hg.Decl.Type.Params.NumFields() == 0 {
+						bodies = append(bodies, hg.Decl.Body)
+					}
+				}
+			}
+			return true
+		})
+		lenOfAppended := false
+		for _, hb := range bodies[1:] {
+			var appendedTo string
+			var appendAt token.Pos
+			ast.Inspect(hb, func(n ast.Node) bool {
+				if as, ok := n.(*ast.AssignStmt); ok && len(as.Lhs) == 1 && len(as.Rhs) == 1 {
+					if call, ok := as.Rhs[0].(*ast.CallExpr); ok {
+						if id, ok := call.Fun.(*ast.Ident); ok && id.Name == "append" && len(call.Args) == 2 && types.ExprString(call.Args[0]) == types.ExprString(as.Lhs[0]) {
+							appendedTo, appendAt = types.ExprString(as.Lhs[0]), as.Pos()
+						}
+					}
+				}
+				return true
+			})
+			ast.Inspect(hb, func(n ast.Node) bool {
+				if ret, ok := n.(*ast.ReturnStmt); ok && appendedTo != "" && ret.Pos() > appendAt {
+					for _, r := range ret.Results {
+						if types.ExprString(r) == "len("+appendedTo+")" {
+							lenOfAppended = true
+						}
+					}
+				}
+				return true
+			})
+		}
+		for _, hb := range bodies[1:] {
+			ast.Inspect(hb, func(n ast.Node) bool {
+				switch n := n.(type) {
+				case *ast.IncDecStmt:
+					incs++
+				case *ast.AssignStmt:
+					if len(n.Lhs) == 1 && len(n.Rhs) == 1 {
+						if call, ok := n.Rhs[0].(*ast.CallExpr); ok {
+							if id, ok := call.Fun.(*ast.Ident); ok && id.Name == "append" && len(call.Args) == 2 && types.ExprString(call.Args[0]) == types.ExprString(n.Lhs[0]) {
+								appends++
+								appended = types.ExprString(call.Args[1])
+							}
+						}
+						if types.ExprString(n.Rhs[0]) == "false" {
+							flagFalse++
+						}
+					}
+				case *ast.CallExpr:
+					if se, ok := n.Fun.(*ast.SelectorExpr); ok && se.Sel.Name == "Reset" {
+						resets++
+					}
+				}
+				return true
+			})
+		}
+		if incs == 0 && lenOfAppended {
+			incs = 1 // the index is the list's length after the one append: it advances with it
+		}
 		ast.Inspect(body, func(n ast.Node) bool {
 			switch n := n.(type) {
 			case *ast.IncDecStmt:
